@@ -59,7 +59,7 @@ def refLoad (X : Ext T S R) (fmt : String) (tt : String) : Except Outcome T :=
     format; an unknown format or a text the loader rejects → usage error -/
 def refTargetMain (X : Ext T S R) (a : Argv) (w : World) : Except Outcome T :=
   let stdin : Except Outcome String :=
-    if w.stdinErr.isSome then .error (.usage .stdinUnreadable) else .ok w.stdin
+    if w.readErr.isSome then .error (.usage .stdinUnreadable) else .ok w.stdin
   let text : Except Outcome String :=
     match nonEmpty (posTexts a).2, nonEmpty a.targetFile with
     | some _, some _ => .error (.usage .targetBoth)
@@ -69,7 +69,7 @@ def refTargetMain (X : Ext T S R) (a : Argv) (w : World) : Except Outcome T :=
       else match X.readFile p with
         | some t => .ok t
         | none => .error (.usage .targetFileUnreadable)
-    | none, none => if w.stdinTty then .ok "" else stdin
+    | none, none => if w.isatty then .ok "" else stdin
   match text with
   | .error o => .error o
   | .ok tt => refLoad X (a.targetFormat.getD "json") tt
@@ -77,6 +77,8 @@ def refTargetMain (X : Ext T S R) (a : Argv) (w : World) : Except Outcome T :=
 /-- 3. the run: --debug / --inspect wrap the spec; a GlomError → `Class: message`, status 1; the
     result → json.dumps(indent (0 = compact), sort_keys) + newline, or the bare scalar, status 0 -/
 def refRun (X : Ext T S R) (a : Argv) (w : World) (t : T) (s : S) : Outcome :=
+  -- with no standard input at all (`sys.stdin is None`) asking whether it is closed is an AttributeError
+  if (a.debug || a.inspect) && w.stdinState == .absent then .exc "AttributeError" else
   let s' := if a.debug || a.inspect
     then X.inspect s a.inspect a.inspect (a.inspect && w.stdinOpen) (a.debug && w.stdinOpen) else s
   match X.glom t s' with
@@ -88,14 +90,17 @@ def refRun (X : Ext T S R) (a : Argv) (w : World) (t : T) (s : S) : Outcome :=
       | .ok out => .exit 0 (X.printed t s' ++ (out ++ "\n"))
       | .error c => .exc c
 
+/-- once the spec is there: the target, then the run -/
+def refFinish (X : Ext T S R) (a : Argv) (w : World) (s : S) (target : Except Outcome T) : Outcome :=
+  match target with
+  | .error o => o
+  | .ok t => refRun X a w t s
+
 /-- problems with the spec are reported before problems with the target -/
 def refMain (X : Ext T S R) (a : Argv) (w : World) : Outcome :=
   match refSpecMain X a with
   | .error o => o
-  | .ok s =>
-    match refTargetMain X a w with
-    | .error o => o
-    | .ok t => refRun X a w t s
+  | .ok s => refFinish X a w s (refTargetMain X a w)
 
 /-! ### the option table -/
 
